@@ -1,43 +1,26 @@
-//! C01 — the store behaves as a key-value map for every operation sequence.
+//! C01 — map semantics; C02 — reopen; C05 — merge preserves reads; C13 — merge reclaims space;
+//! C14 — append-only files; C19 — accounting.  All run the shared shapes of `sc.rs` with the
+//! property's assertions switched on.
+use super::sc::*;
 use super::*;
 
-macro_rules! s_harness { ($(#[$m:meta])* fn $n:ident() $b:block) => {
-    #[kani::proof]
-    #[kani::unwind(20)]
-    #[kani::stub(utils::datafile_name, datafile_name_model)]
-    #[kani::stub(utils::hintfile_name, hintfile_name_model)]
-    #[kani::stub(core::slice::memchr::memchr, memchr_model)]
-    $(#[$m])* fn $n() $b
-} }
-pub(crate) use s_harness;
+// C01 / C02 / C05: reads (and delete's return value) equal the reference map after every step
+s_harness! { fn c01_shape_1() { shape_1::<CHK_READS>() } }
+s_harness! { fn c01_shape_2() { shape_2::<CHK_READS>() } }
+s_harness! { fn c01_shape_3() { shape_3::<CHK_READS>() } }
+s_harness! { fn c01_shape_4() { shape_4::<CHK_READS>() } }
+s_harness! { fn c01_shape_5() { shape_5::<CHK_READS>() } }
 
-/// One symbolic write-side operation (put / delete, symbolic key and value) on the store,
-/// mirrored on the reference map; delete's return value is checked.
-pub(crate) fn sym_write_op(s: &mut Store, k: &[u8; 2], model: &mut Model) {
-    let ki: usize = kani::any();
-    kani::assume(ki < 2);
-    if kani::any() {
-        let v: u8 = kani::any();
-        must(s.w.put(kb(k[ki]), kb(v)));
-        model[ki] = Some(v);
-    } else {
-        let was = must(s.w.delete(kb(k[ki])));
-        assert!(was == model[ki].is_some(), "delete's return value differs from the reference map");
-        model[ki] = None;
-    }
-}
+// C19: accounting equals ground truth after every step
+s_harness! { fn c19_shape_1() { shape_1::<CHK_STATS>() } }
+s_harness! { fn c19_shape_2() { shape_2::<CHK_STATS>() } }
+s_harness! { fn c19_shape_3() { shape_3::<CHK_STATS>() } }
+s_harness! { fn c19_shape_4() { shape_4::<CHK_STATS>() } }
+s_harness! { fn c19_shape_5() { shape_5::<CHK_STATS>() } }
 
-s_harness! {
-/// Arbitrary directory of one data file (<= 2 records), real recovery, ONE symbolic operation with
-/// symbolic `max_file_size` (rollover or not), then both keys read back.
-fn c01_step1() {
-    let k = key_pool();
-    let mut model: Model = [None, None];
-    gen_datafile(0, 2, &k, &mut model);
-    let mut s = open_store(mk_conf(kani::any(), 2, false));
-    sym_write_op(&mut s, &k, &mut model);
-    check_reads(&s, &k, &model);
-    kani::cover!(s.w.active_fileid == 2, "rollover happened");
-    kani::cover!(s.w.active_fileid == 1, "no rollover");
-    std::mem::forget(s);
-} }
+// C13 (size never grows) + C14 (monitor) after every step
+s_harness! { fn c14_shape_1() { shape_1::<{ CHK_MONITOR | CHK_SIZES }>() } }
+s_harness! { fn c14_shape_2() { shape_2::<{ CHK_MONITOR | CHK_SIZES }>() } }
+s_harness! { fn c14_shape_3() { shape_3::<{ CHK_MONITOR | CHK_SIZES }>() } }
+s_harness! { fn c14_shape_4() { shape_4::<{ CHK_MONITOR | CHK_SIZES }>() } }
+s_harness! { fn c14_shape_5() { shape_5::<{ CHK_MONITOR | CHK_SIZES }>() } }
